@@ -45,16 +45,25 @@ def is_objectish(doc, sch) -> bool:
     return rs.get("type") == "object" and "properties" in rs or "allOf" in rs
 
 
+def is_named_enum(doc, sch) -> bool:
+    rs = gs.resolve(doc, sch)
+    return isinstance(rs.get("enum"), list) and rs.get("type") in ("string", "integer") and not rs.get("nullable")
+
+
 WITNESS_DOC = {"openapi": "3.0.3", "info": {"title": "W", "version": "1"}, "paths": {
     "/text": {"get": {"operationId": "getText", "responses": {"200": {"description": "t", "content": {"text/plain": {"schema": {"type": "string"}}}}}}},
     "/date": {"get": {"operationId": "getDate", "responses": {"200": {"description": "d", "content": {"application/json": {"schema": {"type": "string", "format": "date"}}}}}}},
     "/nd": {"get": {"operationId": "getNd", "responses": {"200": {"description": "n", "content": {"application/x-ndjson": {"schema": {"type": "object", "properties": {"a": {"type": "integer"}}}}}}}}},
     "/ws": {"get": {"operationId": "getWs", "responses": {"200": {"description": "w", "content": {
         "application/vnd.acme.v2+json": {"schema": {"$ref": "#/components/schemas/V1"}}, "application/json": {"schema": {"type": "string"}}}}}}},
+    "/states": {"get": {"operationId": "listStates", "responses": {"200": {"description": "s", "content": {"application/json": {"schema": {
+        "type": "array", "items": {"$ref": "#/components/schemas/OrderState"}}}}}}}},
+    "/state": {"get": {"operationId": "getState", "responses": {"200": {"description": "s", "content": {"application/json": {"schema": {"$ref": "#/components/schemas/OrderState"}}}}}}},
     "/node": {"get": {"operationId": "getNode", "responses": {"200": {"description": "n", "content": {"application/json": {"schema": {"$ref": "#/components/schemas/Node"}}}}}}},
     "/u": {"get": {"operationId": "getU", "responses": {"200": {"description": "u", "content": {"application/json": {"schema": {"$ref": "#/components/schemas/Holder"}}}}}}}},
     "components": {"schemas": {
         "Node": {"type": "object", "required": ["v", "children"], "properties": {"v": {"type": "integer"}, "children": {"type": "array", "items": {"$ref": "#/components/schemas/Node"}}}},
+        "OrderState": {"type": "string", "enum": ["open", "paid", "shipped"]},
         "V1": {"type": "object", "required": ["a"], "properties": {"a": {"type": "string"}}},
         "V2": {"type": "object", "required": ["a", "b"], "properties": {"a": {"type": "string"}, "b": {"type": "integer"}}},
         "Holder": {"type": "object", "required": ["item"], "properties": {"item": {"oneOf": [{"$ref": "#/components/schemas/V1"}, {"$ref": "#/components/schemas/V2"}]}}}}}}
@@ -172,6 +181,9 @@ def build_cases(ctx, stream: str, n: int) -> list[dict]:
                     if rp["expect"]["kind"] == "json":
                         rp["expect"]["is_object"] = "$ref" in sch and is_objectish(doc, sch)
                         rp["expect"]["items_object"] = sch.get("type") == "array" and "$ref" in (sch.get("items") or {}) and is_objectish(doc, sch["items"])
+                        # a NAMED enum (a component with `enum`, generated as an Enum class) comes back as members of that class
+                        rp["expect"]["is_enum"] = "$ref" in sch and is_named_enum(doc, sch)
+                        rp["expect"]["items_enum"] = sch.get("type") == "array" and "$ref" in (sch.get("items") or {}) and is_named_enum(doc, sch["items"])
                     primary = c == primary_code(op["responses"])
                     pc = primary_code(op["responses"])
                     if not primary and pc is not None and is_stream_content((op["responses"][pc] or {}).get("content")):
